@@ -3,6 +3,7 @@ package planner
 import (
 	"encoding/json"
 	"fmt"
+	"sort"
 	"strings"
 
 	"github.com/buildbuildio/pebbles/common"
@@ -77,7 +78,12 @@ func (sf ScrubFields) Clean(payload map[string]interface{}) {
 
 func (sf ScrubFields) clean(payload map[string]interface{}, path []string, fields map[string][]string) bool {
 	if len(path) == 0 {
-		for typename, fields := range fields {
+		// walk the types in a fixed order: without __typename in the payload the first
+		// entry is applied, and map order would make the response differ between runs
+		typenames := lo.Keys(fields)
+		sort.Strings(typenames)
+		for _, typename := range typenames {
+			fields := fields[typename]
 			if tn, ok := payload[common.TypenameFieldName]; ok && typename != tn {
 				continue
 			}
